@@ -37,7 +37,7 @@ class PresenceProtocolEntity(ProtocolEntity):
         attribs = {}
         if self._type:
             attribs["type"] = self._type
-        if self.name:
+        if self.name is not None:
             attribs["name"] = self.name
         if self._from:
             attribs["from"] = self._from
